@@ -28,7 +28,9 @@ CHECKS['C18'] = {
             'Round 2: about one case in 17-29 carries 1-3 stream lines of 50-280 KiB (600-3300 locators on one line, content derived from a '
             'drawn seed; labels big:*), and backends also answer with 201/202/203/206/299/301/400/401/403/410/422 (and 404/500) whose '
             'body/record carries an honest, tampered or different manifest (labels remote:status-*): whatever status a remote used, a '
-            'manifest handed to the client must hash to the request and be the exact +A->+R rewrite of what that remote sent.',
+            'manifest handed to the client must hash to the request and be the exact +A->+R rewrite of what that remote sent. '
+            'Round 3: 3 of 8 requests (fed: GetOptions.Select, legacyfan: ?select=) carry a select list, 6 of 8 of them without '
+            'manifest_text (["uuid","portable_data_hash"], ["uuid"], ["name","owner_uuid"], ...); the backends send a manifest_text anyway (labels select:*).',
     'assumptions': [
         'lib/controller/localdb/login_pam.go is replaced at build time by a PAM-free stand-in (missing C header in the sandbox)',
         'the answer of the LOCAL cluster is only required to be relayed unchanged (the property speaks about remote clusters)',
